@@ -85,6 +85,18 @@ func c18Pairs(seed int64, n int) [][2]string {
 	nd.Add(lib.EX+"tags", lib.StrV("75%"))
 	out = append(out, [2]string{pct.Text(), g.CanonicalJSONLD()})
 	out = append(out, [2]string{pct.Text(), `[{"@id":"http://ex.org/ok","@type":["http://ex.org/U"]}]`}) // conforming: short report
+	// text outside ASCII (2-, 3- and 4-byte characters) in everything the CLI prints: bytes and characters differ in number
+	uni := &lib.ProfileDoc{Name: "Prüfprofil 名前 😀 ελληνικά", Prefixes: [][2]string{{"ex", lib.EX}}, Violation: []string{"vérification"}, Warning: []string{"w"},
+		Validations: []lib.Validation{
+			{Name: "vérification", TargetClass: "ex.T", Message: "«{{ex.name}}» doit avoir un nom — 必須 😀", Body: lib.PC1("ex.missing", lib.CScalar("minCount", lib.Int(1)))},
+			{Name: "w", TargetClass: "ex.T", Message: "étiquettes de {{ex.name}}", Body: lib.PC1("ex.tags", lib.CList("in", "ωμέγα", "日本"))}}}
+	gu := lib.NewGraph()
+	for k, nm := range []string{"Zoë", "名前", "😀😀😀", "plain"} {
+		nu := gu.AddNode(fmt.Sprintf("%snœud/%d", lib.EX, k), lib.EX+"T")
+		nu.Add(lib.EX+"name", lib.StrV(nm))
+		nu.Add(lib.EX+"tags", lib.StrV("ярлык"))
+	}
+	out = append(out, [2]string{uni.Text(), gu.CanonicalJSONLD()})
 	for _, p := range c05Profiles() {
 		for k := 0; k < 2; k++ {
 			gg := c05Graph(lib.CaseRand(seed, 18, len(out)))
@@ -117,7 +129,7 @@ func c18Pairs(seed int64, n int) [][2]string {
 // failures give a non-zero exit status and no report on stdout.
 func c18(tier string) {
 	ctx := lib.NewCtx("C18", tier)
-	ctx.Rule = "(profile, data) pairs (reports from 1 KiB to >300 KiB; data files from 64 KiB to 4.5 MiB around the 1 MiB mark and a 1.2 MiB profile file; percent signs, quotes and placeholders in names, messages and node ids; source maps; conforming and non-conforming) x sub-commands validate (stdout and file), generate, normalize, compile x invocation styles (relative paths from other working directories, file names with blanks / non-ASCII letters, empty and unusual environments, relative output paths, data / profile read from a named pipe or from standard input) x prior states of the output path (absent, empty, shorter, longer garbage, a previous longer report, equal length, read-only, directory, dangling symlink, symlink to a file, missing parent directory, the output path naming the data file / a symlink to it / a hard link to the profile) and sequences long -> short -> long into one file; the library's answer is computed by a fresh harness process (generated names are numbered per process), dateCreated is required to parse as RFC 3339 and masked on both sides, nothing else is masked; failure classes: missing/extra arguments, unknown command, unreadable paths, malformed profile, malformed data, injected ENOSPC on the output file; " +
+	ctx.Rule = "(profile, data) pairs (reports from 1 KiB to >300 KiB; data files from 64 KiB to 4.5 MiB around the 1 MiB mark and a 1.2 MiB profile file; percent signs, quotes, placeholders and text outside ASCII (2- to 4-byte characters) in names, messages, values and node ids; source maps; conforming and non-conforming) x sub-commands validate (stdout and file), generate, normalize, compile x invocation styles (relative paths from other working directories, file names with blanks / non-ASCII letters, empty and unusual environments, relative output paths, data / profile read from a named pipe or from standard input) x prior states of the output path (absent, empty, shorter, longer garbage, a previous longer report, equal length, read-only, directory, dangling symlink, symlink to a file, missing parent directory, the output path naming the data file / a symlink to it / a hard link to the profile) and sequences long -> short -> long into one file; the library's answer is computed by a fresh harness process (generated names are numbered per process), dateCreated is required to parse as RFC 3339 and masked on both sides, nothing else is masked; failure classes: missing/extra arguments, unknown command, unreadable paths, malformed profile, malformed data, injected ENOSPC on the output file; " +
 		"non-trivial & distinct = (pair, sub-command, prior state) whose expected output is a non-empty report / policy / normalised input"
 	ctx.Assumptions = []string{"stdout carries the output followed by exactly one newline (Println); the file holds exactly the report", "the check runs as root: a read-only output file is writable, it must then hold exactly the report"}
 	n := ctx.N(32, 120)
